@@ -42,7 +42,7 @@ struct out_s {
 };
 enum {
 	F_LDN, F_MDN, F_EPOCH, F_MCNT, F_YCNT, F_D, F_YDAY, F_G2, F_G, F_M, F_Q, F_WU, F_WV, F_WW, F_Y2, F_Y, F_Y1,
-	F_ABBRW, F_LONGW, F_1W, F_ABBRM, F_LONGM, F_1M, F_QQ, F_ROMD, F_ROMM, F_ROMY2, F_ROMY, F_DTH, F_MTH, F_F,
+	F_ABBRW, F_LONGW, F_1W, F_ABBRM, F_LONGM, F_1M, F_QQ, F_ROMD, F_ROMM, F_ROMY2, F_ROMY, F_ROMC, F_DTH, F_MTH, F_F,
 	F_BD,
 };
 static const struct out_s outs[] = {
@@ -86,6 +86,7 @@ static const struct out_s outs[] = {
 	{"%Om", K_STR, F_ROMM},
 	{"%Oy", K_STR, F_ROMY2},
 	{"%OY", K_STR, F_ROMY},
+	{"%Oc", K_STR, F_ROMC},
 	{"%dth", K_STR, F_DTH},
 	{"%mth", K_STR, F_MTH},
 	{"%db", K_STR, F_BD},
@@ -132,6 +133,7 @@ exp_str(int f, const struct rc_day *p, char *buf, size_t bsz)
 	case F_ROMM: vf_roman(buf, p->m); break;
 	case F_ROMY2: vf_roman(buf, p->y % 100); break;
 	case F_ROMY: vf_roman(buf, p->y); break;
+	case F_ROMC: vf_roman(buf, p->mcnt); break;
 	case F_DTH: snprintf(buf, bsz, "%d%s", p->d, vf_ordsuf(p->d)); break;
 	case F_MTH: snprintf(buf, bsz, "%d%s", p->m, vf_ordsuf(p->m)); break;
 	case F_F: snprintf(buf, bsz, "%04d-%02d-%02d", p->y, p->m, p->d); break;
